@@ -61,7 +61,7 @@ def _not_owned(w):
 
 
 def run_whole_runs(res, pid, tier, seed, acceptors, rule):
-    run_r(pid, tier, seed, whole_run_scenarios(tier), acceptors, 1 if tier == "quick" else 2, _not_owned, ["whole_run_rounds_with_fills"], rule,
+    run_r(pid, tier, seed, whole_run_scenarios(tier), acceptors, 1, _not_owned, ["whole_run_rounds_with_fills"], rule,
           res=res, label="whole_runs", split=0)
     return res
 
